@@ -615,6 +615,9 @@ class BaseWorklist(list):
         # transform destination wells into range + mask
         destination_wells = numpy.array(destination_wells).flatten("F")
         dst_wells = list(sorted([self._get_well_position(destination, w) for w in destination_wells]))
+        if len(set(destination_wells.tolist())) != len(destination_wells):
+            # the command dispenses once into every selected well of the destination range
+            raise ValueError(f"Reagent distribution needs pairwise distinct destination wells: {destination_wells}")
         dst_start, dst_end = dst_wells[0], dst_wells[-1]
         excluded_dst_wells = set(range(dst_start, dst_end + 1)).difference(dst_wells)
 
